@@ -91,6 +91,9 @@ func (m *Module) ifaceDecl(p *Pkg, it *Iface, q func(string) string) string {
 	for _, e := range it.Embeds {
 		sb.WriteString("\t" + Render(e, q) + "\n")
 	}
+	for _, x := range it.XEmbeds {
+		sb.WriteString("\t" + XQual(x.Pkg) + "." + x.Iface + "\n")
+	}
 	for _, mt := range it.Methods {
 		sb.WriteString("\t" + mt.Name + RenderSig(mt.Sig, q) + "\n")
 	}
@@ -128,6 +131,7 @@ func (m *Module) Files() map[string]string {
 		for f := 0; f < nf; f++ {
 			var body strings.Builder
 			keys := map[string]bool{}
+			xsrc := map[int]bool{}
 			for ii := range p.Ifaces {
 				it := &p.Ifaces[ii]
 				fi := it.File
@@ -140,6 +144,9 @@ func (m *Module) Files() map[string]string {
 				for _, k := range it.PkgKeys() {
 					keys[k] = true
 				}
+				for _, x := range it.XEmbeds {
+					xsrc[x.Pkg] = true
+				}
 				body.WriteString("\n" + m.ifaceDecl(p, it, q))
 			}
 			var sb strings.Builder
@@ -149,8 +156,13 @@ func (m *Module) Files() map[string]string {
 				ks = append(ks, k)
 			}
 			sort.Strings(ks)
-			if len(ks) > 0 {
+			if len(ks) > 0 || len(xsrc) > 0 {
 				sb.WriteString("import (\n")
+				for xi := range m.Pkgs {
+					if xsrc[xi] {
+						sb.WriteString("\t" + XQual(xi) + " \"" + m.PkgPath(&m.Pkgs[xi]) + "\"\n")
+					}
+				}
 				for _, k := range ks {
 					info := LookupPkg(k)
 					if !info.Std {
@@ -271,6 +283,9 @@ func (m *Module) Features() []string {
 			}
 			if len(it.Embeds) > 0 {
 				set["embedding"] = true
+			}
+			if len(it.XEmbeds) > 0 {
+				set["embedding:interface-of-another-mocked-package"] = true
 			}
 			if !it.Exported() {
 				set["unexported-iface"] = true
